@@ -4,7 +4,7 @@
 # /repo itself is never touched; evidence/ and replays/ of these runs go to a scratch directory (VERIF_OUT).
 export GOFLAGS=-mod=mod GOPROXY=off GOSUMDB=off GOTOOLCHAIN=local VERIF_NOSHRINK=1
 WT=${SEED_WT:-/tmp/seedrepo}
-export VERIF_REPO=$WT VERIF_BUILD=/verif/build/seeded VERIF_OUT=${SEED_OUT:-/tmp/seedout}
+export VERIF_REPO=$WT VERIF_BUILD=/verif/build/$(basename $WT) VERIF_OUT=${SEED_OUT:-/tmp/seedout}
 cd /verif
 mkdir -p $VERIF_BUILD $VERIF_OUT
 git -C /repo worktree remove --force $WT 2>/dev/null; git -C /repo worktree prune
